@@ -128,5 +128,29 @@ for c in cases:
         bad += 1
         if bad <= 10:
             print('DISAGREE', name, nargs if name.startswith(('propka.hyb', 'propka.lib', 'propka.input')) else '', 'CPython', a, 'engine', b)
+# symbolic string models evaluated under concrete assignments: X.strip() == 'LIT' formula and strip_forks vs CPython
+import ast as _ast
+from pyvc.ctx import Ctx as _Ctx
+from pyvc.core import Env as _Env
+for lit in ('TER', '', 'A'):
+    for L in (0, 1, 3, 5, 7):
+        ex = Executor(repo)
+        ex.ctx = _Ctx()
+        chars = [Sym(z3.Int('ch%d' % i)) for i in range(L)]
+        node = _ast.parse('line.strip() == %r' % lit, mode='eval').body
+        got = ex._strip_eq_literal(node, _Env(repo.module('propka.input'), {'line': SStr(chars)})) if L else None
+        for _ in range(60):
+            n += 1
+            txt = ''.join(rng.choice(' \tTERAX') for _ in range(L))
+            want = (txt.strip() == lit)
+            if got is None:
+                continue
+            f = got[0]
+            if isinstance(f, Sym):
+                val = z3.simplify(z3.substitute(f.e, *[(c.e, z3.IntVal(ord(t))) for c, t in zip(chars, txt)]))
+                f = z3.is_true(val)
+            if bool(f) != want:
+                bad += 1
+                print('DISAGREE strip-eq', repr(txt), lit, f, want)
 print('difftest: %d cases, %d disagreements' % (n, bad))
 sys.exit(1 if bad else 0)
